@@ -1,10 +1,1169 @@
-(** * C07 — proofs (work in progress). *)
-From Coq Require Import List Bool String Ascii ZArith Lia.
+(** * C07 — proofs about the model of field collection and introspection. *)
+From Coq Require Import List Bool String Ascii ZArith Lia Sorted Permutation.
 Import ListNotations.
 From Attrs Require Import Base Core.Attr C07.Model.
+Open Scope string_scope.
+Open Scope list_scope.
+
+(** ** Generic list facts *)
+
+Lemma find_app {A} (p : A -> bool) l1 l2 :
+  find p (l1 ++ l2) = match find p l1 with Some x => Some x | None => find p l2 end.
+Proof. induction l1 as [|a l1 IH]; cbn; [reflexivity|]. destruct (p a); auto. Qed.
+
+Lemma find_map_commute {A} (p : A -> bool) (g : A -> A) l :
+  (forall a, p (g a) = p a) -> find p (map g l) = option_map g (find p l).
+Proof.
+  intros Hg. induction l as [|a l IH]; cbn; [reflexivity|].
+  rewrite Hg. destruct (p a); auto.
+Qed.
+
+Lemma find_none_iff {A} (p : A -> bool) l : find p l = None <-> forall x, In x l -> p x = false.
+Proof.
+  split.
+  - intros H x Hx. eapply find_none; eauto.
+  - induction l as [|a l IH]; cbn; intros H; [reflexivity|].
+    rewrite (H a (or_introl eq_refl)). apply IH. intros x Hx. apply H. now right.
+Qed.
+
+Lemma rev_flat_map {A B} (f : A -> list B) l :
+  rev (flat_map f l) = flat_map (fun x => rev (f x)) (rev l).
+Proof.
+  induction l as [|a l IH]; cbn; [reflexivity|].
+  rewrite rev_app_distr, IH, flat_map_app. cbn. now rewrite app_nil_r.
+Qed.
+
+Lemma filter_rev {A} (p : A -> bool) l : filter p (rev l) = rev (filter p l).
+Proof.
+  induction l as [|a l IH]; cbn; [reflexivity|].
+  rewrite filter_app, IH. cbn. destruct (p a); cbn; [reflexivity | now rewrite app_nil_r].
+Qed.
+
+Lemma NoDup_app_intro {A} (l1 l2 : list A) :
+  NoDup l1 -> NoDup l2 -> (forall x, In x l1 -> ~ In x l2) -> NoDup (l1 ++ l2).
+Proof.
+  induction l1 as [|a l1 IH]; cbn; intros H1 H2 Hd; [assumption|].
+  inversion H1; subst. constructor.
+  - rewrite in_app_iff. intros [H|H]; [contradiction|]. apply (Hd a); auto.
+  - apply IH; auto.
+Qed.
+
+Lemma NoDup_app_inv {A} (l1 l2 : list A) :
+  NoDup (l1 ++ l2) -> NoDup l1 /\ NoDup l2 /\ (forall x, In x l1 -> ~ In x l2).
+Proof.
+  induction l1 as [|a l1 IH]; cbn; intros H.
+  - repeat split; [constructor | assumption | intros x []].
+  - inversion H as [|? ? Hn Hr]; subst. destruct (IH Hr) as (H1 & H2 & Hd).
+    repeat split; auto.
+    + constructor; auto. intros Hi. apply Hn. apply in_app_iff. now left.
+    + intros x [->|Hx] Hx2; [apply Hn; apply in_app_iff; now right | eapply Hd; eauto].
+Qed.
+
+Lemma NoDup_rev_iff {A} (l : list A) : NoDup l -> NoDup (rev l).
+Proof.
+  induction l as [|a l IH]; cbn; intros H; [constructor|].
+  inversion H; subst. apply NoDup_app_intro; auto.
+  - constructor; [intros []| constructor].
+  - intros x Hx [->|[]]. apply in_rev in Hx. contradiction.
+Qed.
+
+(** ** Names and the record updates *)
+
+Definition named (n : string) (a : attribute) : bool := String.eqb (a_name a) n.
+
+Lemma names_app l1 l2 : names (l1 ++ l2) = names l1 ++ names l2.
+Proof. apply map_app. Qed.
+
+Lemma names_rev l : names (rev l) = rev (names l).
+Proof. apply map_rev. Qed.
+
+Lemma name_resolve_alias a : a_name (resolve_alias a) = a_name a.
+Proof.
+  unfold resolve_alias. destruct (a_alias a) as [al|]; [destruct (String.eqb al "")|]; reflexivity.
+Qed.
 
 Lemma names_resolve_alias l : names (map resolve_alias l) = names l.
+Proof. unfold names. rewrite map_map. apply map_ext. apply name_resolve_alias. Qed.
+
+Lemma inherited_resolve_alias a : a_inherited (resolve_alias a) = a_inherited a.
 Proof.
-  unfold names. rewrite map_map. apply map_ext. intros a. unfold resolve_alias.
-  destruct (a_alias a) as [al|]; [destruct (String.eqb al "")|]; reflexivity.
+  unfold resolve_alias. destruct (a_alias a) as [al|]; [destruct (String.eqb al "")|]; reflexivity.
 Qed.
+
+Lemma names_evolve_kw_only kw l : names (evolve_kw_only kw l) = names l.
+Proof. destruct kw; cbn; [|reflexivity]. unfold names. rewrite map_map. reflexivity. Qed.
+
+Lemma names_set_inherited l b : names (map (fun a => set_inherited a b) l) = names l.
+Proof. unfold names. rewrite map_map. reflexivity. Qed.
+
+Lemma set_inherited_id a : a_inherited a = true -> set_inherited a true = a.
+Proof. destruct a; cbn; intros ->; reflexivity. Qed.
+
+Lemma set_inherited_idem a b : set_inherited (set_inherited a b) b = set_inherited a b.
+Proof. reflexivity. Qed.
+
+Lemma In_names a l : In a l -> In (a_name a) (names l).
+Proof. intros H. apply in_map_iff. eauto. Qed.
+
+Lemma mem_str_false s l : mem_str s l = false <-> ~ In s l.
+Proof.
+  rewrite <- mem_str_In. destruct (mem_str s l); split; intros H;
+    try reflexivity; try discriminate; try (exfalso; apply H; reflexivity);
+    try (intros E; discriminate).
+Qed.
+
+(** ** [dedup_first] / [keep_last] *)
+
+Lemma dedup_first_ext l : forall s1 s2,
+  (forall n, mem_str n s1 = mem_str n s2) -> dedup_first l s1 = dedup_first l s2.
+Proof.
+  induction l as [|a l IH]; cbn; intros s1 s2 H; [reflexivity|].
+  rewrite (H (a_name a)). destruct (mem_str (a_name a) s2); [now apply IH|].
+  f_equal. apply IH. intros n. cbn. now rewrite H.
+Qed.
+
+Lemma dedup_first_In l : forall seen a, In a (dedup_first l seen) -> In a l /\ ~ In (a_name a) seen.
+Proof.
+  induction l as [|x l IH]; cbn; intros seen a H; [contradiction|].
+  destruct (mem_str (a_name x) seen) eqn:E.
+  - destruct (IH _ _ H). auto.
+  - destruct H as [->|H].
+    + split; [now left | now apply mem_str_false].
+    + destruct (IH _ _ H) as [H1 H2]. split; [now right|]. intros Hi. apply H2. now right.
+Qed.
+
+Lemma dedup_first_nodup l : forall seen, NoDup (names (dedup_first l seen)).
+Proof.
+  induction l as [|x l IH]; cbn; intros seen; [constructor|].
+  destruct (mem_str (a_name x) seen); [apply IH|]. cbn. constructor; [|apply IH].
+  intros Hi. apply in_map_iff in Hi as (b & Hb & Hin).
+  apply dedup_first_In in Hin as [_ Hn]. apply Hn. left. now rewrite Hb.
+Qed.
+
+Lemma find_dedup_first n l : forall seen,
+  find (named n) (dedup_first l seen) = if mem_str n seen then None else find (named n) l.
+Proof.
+  induction l as [|x l IH]; cbn; intros seen; [now destruct (mem_str n seen)|].
+  destruct (mem_str (a_name x) seen) eqn:E.
+  - rewrite IH. destruct (mem_str n seen) eqn:E2; [reflexivity|].
+    unfold named at 2. destruct (String.eqb (a_name x) n) eqn:E3; [|reflexivity].
+    apply String.eqb_eq in E3. congruence.
+  - cbn. unfold named at 1 3. destruct (String.eqb (a_name x) n) eqn:E3.
+    + apply String.eqb_eq in E3. subst n. now rewrite E.
+    + rewrite IH. cbn. rewrite String.eqb_sym, E3. reflexivity.
+Qed.
+
+Lemma find_rev_nodup n l : NoDup (names l) -> find (named n) (rev l) = find (named n) l.
+Proof.
+  induction l as [|x l IH]; cbn; intros H; [reflexivity|].
+  inversion H as [|? ? Hn Hr]; subst. rewrite find_app, (IH Hr). cbn.
+  unfold named at 2 3. destruct (String.eqb (a_name x) n) eqn:E.
+  - apply String.eqb_eq in E. subst n.
+    assert (Hf : find (named (a_name x)) l = None).
+    { apply find_none_iff. intros y Hy. unfold named. apply String.eqb_neq. intros Eq.
+      apply Hn. rewrite <- Eq. now apply In_names. }
+    now rewrite Hf.
+  - now destruct (find (named n) l).
+Qed.
+
+Lemma keep_last_nodup l : NoDup (names (keep_last l)).
+Proof. unfold keep_last. rewrite names_rev. apply NoDup_rev_iff. apply dedup_first_nodup. Qed.
+
+Lemma keep_last_In l a : In a (keep_last l) -> In a l.
+Proof.
+  unfold keep_last. intros H. apply in_rev in H. apply dedup_first_In in H as [H _].
+  now apply in_rev in H.
+Qed.
+
+(** The freshest definition wins: [keep_last] finds the last one of every name. *)
+Lemma find_keep_last n l : find (named n) (keep_last l) = find (named n) (rev l).
+Proof.
+  unfold keep_last. rewrite find_rev_nodup by apply dedup_first_nodup.
+  now rewrite find_dedup_first.
+Qed.
+
+(** ** [_collect_base_attrs]: once per name, never a taken name, all flagged inherited *)
+
+Lemma from_base_In taken l a :
+  In a (from_base taken l) -> a_inherited a = true /\ ~ In (a_name a) taken.
+Proof.
+  unfold from_base. intros H. apply in_map_iff in H as (b & <- & Hb).
+  apply filter_In in Hb as [_ Hb]. apply negb_true_iff, orb_false_iff in Hb as [_ Hb].
+  split; [reflexivity | now apply mem_str_false].
+Qed.
+
+Lemma collect_In t mro taken a :
+  In a (collect_base_attrs t mro taken) -> a_inherited a = true /\ ~ In (a_name a) taken.
+Proof.
+  unfold collect_base_attrs. intros H. apply keep_last_In in H.
+  apply in_flat_map in H as (b & _ & H). eapply from_base_In; eauto.
+Qed.
+
+Lemma collect_nodup t mro taken : NoDup (names (collect_base_attrs t mro taken)).
+Proof. apply keep_last_nodup. Qed.
+
+(** ** [mro_nearest_wins] *)
+
+(** The fields a class defines itself (what it does not merely inherit). *)
+Definition own_fields (t : table) (c : nat) : list attribute :=
+  filter (fun a => negb (a_inherited a)) (own_dict_attrs t c).
+
+Definition last_named (n : string) (l : list attribute) : option attribute :=
+  find (named n) (rev l).
+
+(** The definition of [n] in the first class of the MRO that defines [n] itself. *)
+Fixpoint nearest_def (t : table) (mro : list nat) (n : string) : option attribute :=
+  match mro with
+  | [] => None
+  | c :: r => match last_named n (own_fields t c) with
+              | Some a => Some a
+              | None => nearest_def t r n
+              end
+  end.
+
+Lemma find_filter_taken n taken l :
+  find (named n) (filter (fun a => negb (a_inherited a || mem_str (a_name a) taken)) l) =
+  if mem_str n taken then None else find (named n) (filter (fun a => negb (a_inherited a)) l).
+Proof.
+  induction l as [|x l IH]; cbn; [now destruct (mem_str n taken)|].
+  destruct (a_inherited x); cbn; [exact IH|].
+  destruct (mem_str (a_name x) taken) eqn:E; cbn.
+  - rewrite IH. destruct (mem_str n taken) eqn:E2; [reflexivity|].
+    unfold named at 2. destruct (String.eqb (a_name x) n) eqn:E3; [|reflexivity].
+    apply String.eqb_eq in E3. congruence.
+  - unfold named at 1 3. destruct (String.eqb (a_name x) n) eqn:E3.
+    + apply String.eqb_eq in E3. subst n. now rewrite E.
+    + exact IH.
+Qed.
+
+Lemma find_from_base_rev n taken l :
+  find (named n) (rev (from_base taken l)) =
+  if mem_str n taken then None
+  else option_map (fun a => set_inherited a true)
+         (last_named n (filter (fun a => negb (a_inherited a)) l)).
+Proof.
+  unfold from_base, last_named. rewrite <- map_rev, <- !filter_rev.
+  rewrite find_map_commute by reflexivity. rewrite find_filter_taken.
+  now destruct (mem_str n taken).
+Qed.
+
+Lemma mro_nearest_wins_l t mro taken n :
+  find (named n) (collect_base_attrs t mro taken) =
+  if mem_str n taken then None
+  else option_map (fun a => set_inherited a true) (nearest_def t mro n).
+Proof.
+  unfold collect_base_attrs. rewrite find_keep_last, rev_flat_map, rev_involutive.
+  induction mro as [|c r IH]; cbn; [now destruct (mem_str n taken)|].
+  rewrite find_app, find_from_base_rev, IH. fold (own_fields t c).
+  destruct (mem_str n taken); [reflexivity|].
+  now destruct (last_named n (own_fields t c)).
+Qed.
+
+(** ** The legacy collection in flat form *)
+
+Lemma broken_inner_spec l : forall taken,
+  broken_inner l taken =
+  (map (fun a => set_inherited a true) (dedup_first l taken),
+   rev (names (dedup_first l taken)) ++ taken).
+Proof.
+  induction l as [|x l IH]; cbn; intros taken; [reflexivity|].
+  destruct (mem_str (a_name x) taken); [apply IH|].
+  rewrite IH. cbn. now rewrite <- app_assoc.
+Qed.
+
+Lemma mem_str_app n l1 l2 : mem_str n (l1 ++ l2) = mem_str n l1 || mem_str n l2.
+Proof. induction l1 as [|x l1 IH]; cbn; [reflexivity|]. now rewrite IH, orb_assoc. Qed.
+
+Lemma mem_str_rev n l : mem_str n (rev l) = mem_str n l.
+Proof.
+  induction l as [|x l IH]; cbn; [reflexivity|].
+  rewrite mem_str_app, IH. cbn. rewrite orb_false_r. apply orb_comm.
+Qed.
+
+Lemma dedup_first_app l1 : forall l2 s,
+  dedup_first (l1 ++ l2) s =
+  dedup_first l1 s ++ dedup_first l2 (rev (names (dedup_first l1 s)) ++ s).
+Proof.
+  induction l1 as [|x l1 IH]; cbn; intros l2 s; [reflexivity|].
+  destruct (mem_str (a_name x) s); [apply IH|].
+  cbn. f_equal. rewrite IH. f_equal. apply dedup_first_ext. intros n.
+  unfold names. rewrite !mem_str_app. cbn. now rewrite orb_false_r, orb_assoc.
+Qed.
+
+Lemma legacy_flat t mro : forall taken,
+  collect_base_attrs_broken t mro taken =
+  map (fun a => set_inherited a true) (dedup_first (flat_map (getattr_list t) mro) taken).
+Proof.
+  induction mro as [|c r IH]; cbn; intros taken; [reflexivity|].
+  rewrite broken_inner_spec, IH, dedup_first_app, map_app. reflexivity.
+Qed.
+
+Lemma legacy_In t mro taken a :
+  In a (collect_base_attrs_broken t mro taken) -> a_inherited a = true /\ ~ In (a_name a) taken.
+Proof.
+  rewrite legacy_flat. intros H. apply in_map_iff in H as (b & <- & Hb).
+  apply dedup_first_In in Hb as [_ Hb]. split; [reflexivity | exact Hb].
+Qed.
+
+Lemma legacy_nodup t mro taken : NoDup (names (collect_base_attrs_broken t mro taken)).
+Proof. rewrite legacy_flat, names_set_inherited. apply dedup_first_nodup. Qed.
+
+(** ** Both collections: [fields_nodup], [fields_inherited_then_own], [own_shadows_inherited] *)
+
+Lemma base_In t mro by_mro taken a :
+  In a (base_attrs_of t mro by_mro taken) -> a_inherited a = true /\ ~ In (a_name a) taken.
+Proof. destruct by_mro; cbn; [apply collect_In | apply legacy_In]. Qed.
+
+Lemma base_nodup t mro by_mro taken : NoDup (names (base_attrs_of t mro by_mro taken)).
+Proof. destruct by_mro; cbn; [apply collect_nodup | apply legacy_nodup]. Qed.
+
+Lemma own_shadows_inherited_l t mro by_mro own a :
+  In a (base_attrs_of t mro by_mro (names own)) -> ~ In (a_name a) (names own).
+Proof. intros H. now apply base_In in H. Qed.
+
+Ltac destr_order :=
+  match goal with |- context [if order_ok ?x then _ else _] => destruct (order_ok x) eqn:Horder end.
+
+Lemma transform_no_ft_shape t mro by_mro kw own res :
+  transform_attrs t mro by_mro kw None own = Ok res ->
+  res = map resolve_alias (evolve_kw_only kw (base_attrs_of t mro by_mro (names own)))
+        ++ map resolve_alias (evolve_kw_only kw own).
+Proof.
+  unfold transform_attrs, apply_ft. fold (names own). destr_order; [|discriminate].
+  intros E; inversion E. now rewrite map_app.
+Qed.
+
+Lemma fields_nodup_l t mro by_mro kw own res :
+  NoDup (names own) ->
+  transform_attrs t mro by_mro kw None own = Ok res -> NoDup (names res).
+Proof.
+  intros Hown H. apply transform_no_ft_shape in H. subst res.
+  rewrite names_app, !names_resolve_alias, !names_evolve_kw_only.
+  apply NoDup_app_intro; [apply base_nodup | assumption |].
+  intros n Hn. apply in_map_iff in Hn as (a & <- & Ha). now apply base_In in Ha.
+Qed.
+
+Lemma fields_nodup_ft_l t mro by_mro kw ft own res :
+  NoDup (names (ft (evolve_kw_only kw (base_attrs_of t mro by_mro (names own))
+                    ++ evolve_kw_only kw own))) ->
+  transform_attrs t mro by_mro kw (Some ft) own = Ok res -> NoDup (names res).
+Proof.
+  unfold transform_attrs, apply_ft. fold (names own). intros Hn. destr_order; [|discriminate].
+  intros E; inversion E. now rewrite names_resolve_alias.
+Qed.
+
+Lemma inherited_evolve_kw kw l b :
+  Forall (fun a => a_inherited a = b) l ->
+  Forall (fun a => a_inherited a = b) (map resolve_alias (evolve_kw_only kw l)).
+Proof.
+  intros H. apply Forall_forall. intros a Ha. apply in_map_iff in Ha as (x & <- & Hx).
+  rewrite inherited_resolve_alias. destruct kw; cbn in Hx.
+  - apply in_map_iff in Hx as (y & <- & Hy). cbn. eapply Forall_forall in H; eauto.
+  - eapply Forall_forall in H; eauto.
+Qed.
+
+Lemma fields_inherited_then_own_l t mro by_mro kw own res :
+  Forall (fun a => a_inherited a = false) own ->
+  transform_attrs t mro by_mro kw None own = Ok res ->
+  exists inh ow,
+    res = inh ++ ow /\
+    Forall (fun a => a_inherited a = true) inh /\
+    Forall (fun a => a_inherited a = false) ow /\
+    names ow = names own /\
+    (forall n, In n (names inh) -> ~ In n (names own)).
+Proof.
+  intros Hown H. apply transform_no_ft_shape in H.
+  eexists _, _. split; [exact H|]. repeat split.
+  - apply inherited_evolve_kw. apply Forall_forall. intros a Ha. now apply base_In in Ha.
+  - now apply inherited_evolve_kw.
+  - now rewrite names_resolve_alias, names_evolve_kw_only.
+  - rewrite names_resolve_alias, names_evolve_kw_only. intros n Hn.
+    apply in_map_iff in Hn as (a & <- & Ha). now apply base_In in Ha.
+Qed.
+
+(** Own attributes come out of [from_counting_attr] with [inherited=False] and the
+    names of [ca_list], in that order. *)
+Lemma map_result_ok {A B} (f : A -> result B) l r :
+  map_result f l = Ok r -> Forall2 (fun x y => f x = Ok y) l r.
+Proof.
+  revert r. induction l as [|x l IH]; cbn; intros r H.
+  - inversion H. constructor.
+  - destruct (f x) eqn:E; [|discriminate]. destruct (map_result f l); [|discriminate].
+    inversion H; subst. constructor; auto.
+Qed.
+
+Lemma map_result_err {A B} (f : A -> result B) l e :
+  map_result f l = Err e -> exists x, In x l /\ f x = Err e.
+Proof.
+  induction l as [|x l IH]; cbn; intros H; [discriminate|].
+  destruct (f x) eqn:E.
+  - destruct (map_result f l); [discriminate|]. inversion H; subst.
+    destruct (IH eq_refl) as (y & Hy & Ey). exists y. auto.
+  - inversion H; subst. exists x. auto.
+Qed.
+
+Lemma from_counting_attr_ok n ca ann a :
+  from_counting_attr n ca ann = Ok a -> a_name a = n /\ a_inherited a = false.
+Proof.
+  unfold from_counting_attr. destruct ann as [ty|]; [destruct (a_type (ca_attr ca))|];
+    intros H; inversion H; subst; cbn; auto.
+Qed.
+
+Lemma from_counting_attr_err n ca ann e : from_counting_attr n ca ann = Err e -> e = EValue.
+Proof.
+  unfold from_counting_attr. destruct ann as [ty|]; [destruct (a_type (ca_attr ca))|];
+    intros H; inversion H; reflexivity.
+Qed.
+
+Lemma own_attrs_spec pre these auto body own :
+  own_attrs pre these auto body = Ok own ->
+  Forall (fun a => a_inherited a = false) own /\
+  exists l, ca_list pre these auto (fst (namespace body)) (snd (namespace body)) = Ok l /\
+            names own = map fst l.
+Proof.
+  unfold own_attrs. destruct (namespace body) as [cd anns]. cbn.
+  destruct (ca_list pre these auto cd anns) as [l|e]; [|discriminate].
+  intros H. apply map_result_ok in H. split.
+  - induction H as [|x y l r Hxy _ IH]; constructor; auto.
+    now apply from_counting_attr_ok in Hxy.
+  - exists l. split; [reflexivity|].
+    induction H as [|x y l r Hxy _ IH]; cbn; [reflexivity|].
+    apply from_counting_attr_ok in Hxy as [-> _]. now f_equal.
+Qed.
+
+(** ** [own_definition_order] *)
+
+Definition counter_le (x y : string * cattr) : Prop := (ca_counter (snd x) <= ca_counter (snd y))%Z.
+
+Lemma sort_sorted_id l : Sorted counter_le l -> sort_by_counter l = l.
+Proof.
+  induction l as [|x l IH]; cbn; intros H; [reflexivity|].
+  inversion H as [|? ? Hs Hh]; subst. unfold sort_by_counter in *. cbn. rewrite (IH Hs).
+  destruct l as [|y r]; cbn; [reflexivity|].
+  inversion Hh as [|? ? Hle]; subst. unfold counter_le in Hle.
+  apply Z.leb_le in Hle. now rewrite Hle.
+Qed.
+
+(** For ANY strictly increasing counter assignment along the source order the sort
+    returns the source order: the absolute value of the global counter is irrelevant. *)
+Lemma own_definition_order_l l :
+  StronglySorted (fun x y => (ca_counter (snd x) < ca_counter (snd y))%Z) l ->
+  sort_by_counter l = l.
+Proof.
+  intros H. apply sort_sorted_id. apply StronglySorted_Sorted.
+  induction H as [|x l Hs IH Hx]; constructor; auto.
+  eapply Forall_impl; [|exact Hx]. intros y Hy. unfold counter_le. cbn in Hy. lia.
+Qed.
+
+Lemma insert_perm x l : Permutation (x :: l) (insert_by_counter x l).
+Proof.
+  induction l as [|y r IH]; cbn; [apply Permutation_refl|].
+  destruct (Z.leb _ _); [apply Permutation_refl|].
+  eapply Permutation_trans; [apply perm_swap|]. now apply perm_skip.
+Qed.
+
+Lemma sort_perm l : Permutation l (sort_by_counter l).
+Proof.
+  induction l as [|x l IH]; cbn; [constructor|].
+  eapply Permutation_trans; [apply perm_skip, IH | apply insert_perm].
+Qed.
+
+Lemma insert_sorted x l : Sorted counter_le l -> Sorted counter_le (insert_by_counter x l).
+Proof.
+  induction l as [|y r IH]; cbn; intros H; [repeat constructor|].
+  destruct (Z.leb _ _) eqn:E.
+  - constructor; [assumption|]. constructor. now apply Z.leb_le in E.
+  - inversion H as [|? ? Hs Hh]; subst. constructor; [now apply IH|].
+    apply Z.leb_gt in E.
+    destruct r as [|z r']; cbn.
+    + constructor. unfold counter_le. lia.
+    + destruct (Z.leb _ _); constructor.
+      * unfold counter_le. lia.
+      * now inversion Hh.
+Qed.
+
+Lemma sort_sorted l : Sorted counter_le (sort_by_counter l).
+Proof.
+  induction l as [|x l IH]; cbn; [constructor|]. now apply insert_sorted.
+Qed.
+
+(** ** [legacy_linear_agrees]: on a linear chain the legacy collection equals the
+    MRO-correct one *)
+
+Definition not_in (T : list string) (a : attribute) : bool := negb (mem_str (a_name a) T).
+Definition inh (a : attribute) : attribute := set_inherited a true.
+
+(** What [getattr(cls, "__attrs_attrs__", [])] finds when the lookup starts at the
+    head of [mro]. *)
+Definition gf (t : table) (mro : list nat) : list attribute :=
+  match first_some (map (dict_attrs_opt t) mro) with Some l => l | None => [] end.
+
+(** A linear chain [c1; c2; ...]: every class's own MRO tail is the rest of the
+    list, and every decorated class of the chain holds
+    [inherited-along-the-rest ++ own] (no transformer, no class-level kw_only:
+    exactly what either collection, by induction, produced for it). *)
+Inductive chain_ok (t : table) : list nat -> Prop :=
+| chain_nil : chain_ok t []
+| chain_plain c rest e :
+    find_entry t c = Some e -> e_mro e = rest -> e_attrs e = None ->
+    chain_ok t rest -> chain_ok t (c :: rest)
+| chain_deco c rest e own :
+    find_entry t c = Some e -> e_mro e = rest ->
+    e_attrs e = Some (collect_base_attrs t rest (names own) ++ own) ->
+    Forall (fun a => a_inherited a = false) own -> NoDup (names own) ->
+    chain_ok t rest -> chain_ok t (c :: rest).
+
+Lemma dedup_first_split l : forall s1 s2,
+  dedup_first l (s1 ++ s2) = filter (not_in s2) (dedup_first l s1).
+Proof.
+  induction l as [|a l IH]; cbn; intros s1 s2; [reflexivity|].
+  rewrite mem_str_app. destruct (mem_str (a_name a) s1) eqn:E1; cbn; [apply IH|].
+  unfold not_in at 1. destruct (mem_str (a_name a) s2) eqn:E2; cbn.
+  - rewrite <- (IH (a_name a :: s1) s2). apply dedup_first_ext. intros n. cbn.
+    destruct (String.eqb n (a_name a)) eqn:E; cbn; [|reflexivity].
+    apply String.eqb_eq in E. subst n. now rewrite mem_str_app, E2, orb_true_r.
+  - f_equal. apply (IH (a_name a :: s1) s2).
+Qed.
+
+Lemma dedup_first_nodup_id l : forall seen,
+  NoDup (names l) -> (forall a, In a l -> ~ In (a_name a) seen) -> dedup_first l seen = l.
+Proof.
+  induction l as [|a l IH]; cbn; intros seen Hn Hs; [reflexivity|].
+  inversion Hn as [|? ? Hna Hnl]; subst.
+  assert (E : mem_str (a_name a) seen = false) by (apply mem_str_false, Hs; now left).
+  rewrite E. f_equal. apply IH; [assumption|].
+  intros b Hb [Hi|Hi].
+  - apply Hna. rewrite Hi. now apply In_names.
+  - apply (Hs b); auto.
+Qed.
+
+Lemma dedup_first_all_seen l : forall s,
+  (forall a, In a l -> mem_str (a_name a) s = true) -> dedup_first l s = [].
+Proof.
+  induction l as [|a l IH]; cbn; intros s H; [reflexivity|].
+  rewrite (H a (or_introl eq_refl)). apply IH. intros b Hb. apply H. now right.
+Qed.
+
+Lemma mem_names_filter_not_in n T l :
+  mem_str n (names (filter (not_in T) l)) = mem_str n (names l) && negb (mem_str n T).
+Proof.
+  unfold names. induction l as [|a l IH]; cbn; [reflexivity|].
+  unfold not_in at 1. destruct (mem_str (a_name a) T) eqn:E; cbn; rewrite IH.
+  - destruct (String.eqb n (a_name a)) eqn:E2; cbn; [|reflexivity].
+    apply String.eqb_eq in E2. subst n. rewrite E. cbn. now rewrite andb_false_r.
+  - destruct (String.eqb n (a_name a)) eqn:E2; cbn; [|reflexivity].
+    apply String.eqb_eq in E2. subst n. now rewrite E.
+Qed.
+
+Lemma dedup_first_absorb L R T :
+  NoDup (names L) -> (forall a, In a R -> In (a_name a) (names L)) ->
+  dedup_first (L ++ R) T = filter (not_in T) L.
+Proof.
+  intros Hn HR. rewrite dedup_first_app.
+  assert (E : dedup_first L T = filter (not_in T) L).
+  { rewrite <- (dedup_first_nodup_id L [] Hn) at 2 by (intros a _ []).
+    apply (dedup_first_split L [] T). }
+  rewrite E, dedup_first_all_seen; [apply app_nil_r|].
+  intros a Ha. rewrite mem_str_app, mem_str_rev, mem_names_filter_not_in.
+  apply HR, mem_str_In in Ha. rewrite Ha. cbn. now destruct (mem_str (a_name a) T).
+Qed.
+
+Lemma keep_last_app_nodup X Y :
+  NoDup (names Y) -> keep_last (X ++ Y) = filter (not_in (names Y)) (keep_last X) ++ Y.
+Proof.
+  intros Hn. unfold keep_last. rewrite rev_app_distr, dedup_first_app.
+  assert (HY : NoDup (names (rev Y))) by (rewrite names_rev; now apply NoDup_rev_iff).
+  rewrite (dedup_first_nodup_id (rev Y) [] HY) by (intros a _ []).
+  rewrite rev_app_distr, rev_involutive. f_equal.
+  rewrite app_nil_r, names_rev, rev_involutive.
+  change (names Y) with ([] ++ names Y) at 1.
+  rewrite (dedup_first_split (rev X) [] (names Y)). now rewrite filter_rev.
+Qed.
+
+Lemma filter2_ext {A} (p1 q1 p2 q2 : A -> bool) l :
+  (forall a, p1 a && q1 a = p2 a && q2 a) -> filter p1 (filter q1 l) = filter p2 (filter q2 l).
+Proof.
+  intros H. induction l as [|a l IH]; cbn; [reflexivity|].
+  specialize (H a). destruct (q1 a) eqn:E1, (q2 a) eqn:E2; cbn; rewrite ?IH;
+    destruct (p1 a), (p2 a); cbn in *; try discriminate; reflexivity.
+Qed.
+
+Lemma filter_not_in_inh T l : filter (not_in T) (map inh l) = map inh (filter (not_in T) l).
+Proof.
+  induction l as [|a l IH]; cbn; [reflexivity|].
+  change (not_in T (inh a)) with (not_in T a). destruct (not_in T a); cbn; now rewrite IH.
+Qed.
+
+Lemma map_inh_idem l : map inh (map inh l) = map inh l.
+Proof. rewrite map_map. reflexivity. Qed.
+
+Lemma from_base_own_part T B own :
+  Forall (fun a => a_inherited a = true) B -> Forall (fun a => a_inherited a = false) own ->
+  from_base T (B ++ own) = map inh (filter (not_in T) own).
+Proof.
+  intros HB Ho. unfold from_base. rewrite filter_app, map_app.
+  assert (E1 : filter (fun a => negb (a_inherited a || mem_str (a_name a) T)) B = []).
+  { induction HB as [|a B Ha _ IH]; cbn; [reflexivity|]. now rewrite Ha. }
+  rewrite E1. cbn. f_equal.
+  induction Ho as [|a own Ha _ IH]; cbn; [reflexivity|].
+  rewrite Ha. unfold not_in at 1. cbn. destruct (negb _); now rewrite IH.
+Qed.
+
+Lemma own_dict_attrs_find t c e :
+  find_entry t c = Some e ->
+  own_dict_attrs t c = match e_attrs e with Some l => l | None => [] end /\
+  dict_attrs_opt t c = e_attrs e.
+Proof. intros H. unfold own_dict_attrs, dict_attrs_opt. now rewrite H. Qed.
+
+Lemma collect_cons t c rest T :
+  collect_base_attrs t (c :: rest) T =
+  keep_last (flat_map (fun b => from_base T (own_dict_attrs t b)) (rev rest)
+             ++ from_base T (own_dict_attrs t c)).
+Proof. unfold collect_base_attrs. cbn. rewrite flat_map_app. cbn. now rewrite app_nil_r. Qed.
+
+Lemma gf_cons t c rest :
+  gf t (c :: rest) = match dict_attrs_opt t c with Some l => l | None => gf t rest end.
+Proof. unfold gf. cbn. now destruct (dict_attrs_opt t c). Qed.
+
+Lemma nodup_names_filter_inh T own :
+  NoDup (names own) -> NoDup (names (map inh (filter (not_in T) own))).
+Proof.
+  unfold inh. rewrite names_set_inherited. intros Hn.
+  induction own as [|a own IHo]; cbn; [constructor|].
+  inversion Hn as [|? ? H1 H2]; subst. destruct (not_in T a); cbn; [|now apply IHo].
+  constructor; [|now apply IHo]. intros Hin. apply H1.
+  apply in_map_iff in Hin as (b & Hb & Hin). apply filter_In in Hin as [Hin _].
+  rewrite <- Hb. now apply In_names.
+Qed.
+
+Lemma not_in_filtered T own a :
+  not_in (names (map inh (filter (not_in T) own))) a =
+  negb (mem_str (a_name a) (names own) && negb (mem_str (a_name a) T)).
+Proof.
+  unfold not_in at 1. unfold inh. now rewrite names_set_inherited, mem_names_filter_not_in.
+Qed.
+
+(** (1) the MRO-correct collection, seen through the nearest decorated class *)
+Lemma chain_by_mro t mro : chain_ok t mro ->
+  forall T, collect_base_attrs t mro T = map inh (filter (not_in T) (gf t mro)).
+Proof.
+  induction 1 as [|c rest e Hf Hm Ha Hc IH|c rest e own Hf Hm Ha Hi Hn Hc IH]; intros T.
+  - reflexivity.
+  - destruct (own_dict_attrs_find _ _ _ Hf) as [E1 E2]. rewrite Ha in E1, E2.
+    rewrite collect_cons, gf_cons, E1, E2. unfold from_base at 2. cbn. rewrite app_nil_r.
+    apply IH.
+  - destruct (own_dict_attrs_find _ _ _ Hf) as [E1 E2]. rewrite Ha in E1, E2.
+    assert (HB : Forall (fun a => a_inherited a = true) (collect_base_attrs t rest (names own))).
+    { apply Forall_forall. intros a Hin. now apply collect_In in Hin. }
+    rewrite collect_cons, gf_cons, E1, E2.
+    rewrite (from_base_own_part T _ own HB Hi).
+    rewrite keep_last_app_nodup by now apply nodup_names_filter_inh.
+    fold (collect_base_attrs t rest T). rewrite (IH T), (IH (names own)).
+    rewrite filter_app, map_app, !filter_not_in_inh, map_inh_idem. f_equal. f_equal.
+    apply filter2_ext. intros a. rewrite not_in_filtered. unfold not_in.
+    destruct (mem_str (a_name a) T), (mem_str (a_name a) (names own)); reflexivity.
+Qed.
+
+Lemma chain_gf_nodup t mro : chain_ok t mro -> NoDup (names (gf t mro)).
+Proof.
+  induction 1 as [|c rest e Hf Hm Ha Hc IH|c rest e own Hf Hm Ha Hi Hn Hc IH].
+  - constructor.
+  - destruct (own_dict_attrs_find _ _ _ Hf) as [_ E2]. rewrite Ha in E2.
+    now rewrite gf_cons, E2.
+  - destruct (own_dict_attrs_find _ _ _ Hf) as [_ E2]. rewrite Ha in E2.
+    rewrite gf_cons, E2, names_app. apply NoDup_app_intro; auto.
+    + apply collect_nodup.
+    + intros n Hin. apply in_map_iff in Hin as (a & <- & Hin). now apply collect_In in Hin.
+Qed.
+
+Lemma chain_head_getattr t c rest e :
+  find_entry t c = Some e -> e_mro e = rest -> getattr_list t c = gf t (c :: rest).
+Proof. intros Hf Hm. unfold getattr_list, getattr_attrs, gf. now rewrite Hf, Hm. Qed.
+
+Lemma gf_names_mono t c rest :
+  chain_ok t (c :: rest) -> forall n, In n (names (gf t rest)) -> In n (names (gf t (c :: rest))).
+Proof.
+  intros H n Hn. inversion H as [|? ? e Hf Hm Ha Hc|? ? e own Hf Hm Ha Hi Hnd Hc]; subst.
+  - destruct (own_dict_attrs_find _ _ _ Hf) as [_ E2]. rewrite Ha in E2.
+    now rewrite gf_cons, E2.
+  - destruct (own_dict_attrs_find _ _ _ Hf) as [_ E2]. rewrite Ha in E2.
+    rewrite gf_cons, E2, names_app, in_app_iff.
+    destruct (mem_str n (names own)) eqn:E; [right; now apply mem_str_In|left].
+    rewrite (chain_by_mro _ _ Hc). unfold inh. rewrite names_set_inherited.
+    apply mem_str_In. rewrite mem_names_filter_not_in, E. cbn. rewrite andb_true_r.
+    now apply mem_str_In.
+Qed.
+
+Lemma chain_getattr_names t mro : chain_ok t mro ->
+  forall c a, In c mro -> In a (getattr_list t c) -> In (a_name a) (names (gf t mro)).
+Proof.
+  induction 1 as [|c0 rest e Hf Hm Ha Hc IH|c0 rest e own Hf Hm Ha Hi Hn Hc IH];
+    intros c a Hin Hg; [contradiction| |].
+  - destruct Hin as [<-|Hin].
+    + rewrite (chain_head_getattr _ _ _ _ Hf Hm) in Hg. now apply In_names.
+    + apply gf_names_mono; [econstructor 2; eauto | eapply IH; eauto].
+  - destruct Hin as [<-|Hin].
+    + rewrite (chain_head_getattr _ _ _ _ Hf Hm) in Hg. now apply In_names.
+    + apply gf_names_mono; [econstructor 3; eauto | eapply IH; eauto].
+Qed.
+
+(** (2) the legacy collection, seen the same way *)
+Lemma chain_legacy t mro : chain_ok t mro ->
+  forall T, collect_base_attrs_broken t mro T = map inh (filter (not_in T) (gf t mro)).
+Proof.
+  intros H T. rewrite legacy_flat. fold inh. f_equal.
+  destruct mro as [|c rest]; [reflexivity|]. cbn.
+  assert (Hg : getattr_list t c = gf t (c :: rest)).
+  { inversion H; subst; eapply chain_head_getattr; eauto. }
+  rewrite Hg. apply dedup_first_absorb; [now apply chain_gf_nodup|].
+  intros a Ha. apply in_flat_map in Ha as (c' & Hc' & Ha).
+  eapply chain_getattr_names; eauto. now right.
+Qed.
+
+Lemma legacy_linear_agrees_l t mro : chain_ok t mro ->
+  forall T, collect_base_attrs_broken t mro T = collect_base_attrs t mro T.
+Proof. intros H T. now rewrite chain_legacy, chain_by_mro. Qed.
+
+(** ** [legacy_diamond_refuted] (issue #428, finding K7) *)
+
+Definition fld (v : string) : attribute := ib (Some v) DValue true None false None.
+
+(** [A: x]; [B(A): y]; [C(A): x]; [D(B, C)] — all legacy. *)
+Definition diamond_classes (by_mro : bool) : list classdef :=
+  let d := Some (De by_mro false None AutoFalse None) in
+  [ Cl 0 [] [St "x" None (BVField (CA 1 (fld "A.x")))] d;
+    Cl 1 [0] [St "y" None (BVField (CA 2 (fld "B.y")))] d;
+    Cl 2 [0] [St "x" None (BVField (CA 3 (fld "C.x")))] d ].
+
+Definition diamond_table (by_mro : bool) : table := snd (run_classes [] [] (diamond_classes by_mro)).
+
+Lemma legacy_diamond_refuted_l :
+  exists t mro n,
+    find (named n) (collect_base_attrs_broken t mro []) <>
+    option_map inh (nearest_def t mro n).
+Proof.
+  exists (diamond_table false), [1; 2; 0], "x". vm_compute. discriminate.
+Qed.
+
+(** The same hierarchy under [collect_by_mro=True] lists C's definition. *)
+Example by_mro_diamond_ok :
+  option_map a_validator (find (named "x") (collect_base_attrs (diamond_table true) [1; 2; 0] []))
+  = Some (Some "C.x") /\
+  option_map a_validator (find (named "x") (collect_base_attrs_broken (diamond_table false) [1; 2; 0] []))
+  = Some (Some "A.x").
+Proof. split; reflexivity. Qed.
+
+(** Non-vacuity of [chain_ok]: a chain with a plain class in the middle, built by
+    the model itself with mixed collection modes. *)
+Definition chain_classes : list classdef :=
+  [ Cl 0 [] [St "x" None (BVField (CA 1 (fld "A.x"))); St "y" None (BVField (CA 2 (fld "A.y")))]
+       (Some (De false false None AutoFalse None));
+    Cl 1 [0] [] None;
+    Cl 2 [1; 0] [St "x" None (BVField (CA 3 (fld "C.x"))); St "z" None (BVField (CA 4 (fld "C.z")))]
+       (Some (De true false None AutoFalse None)) ].
+Definition chain_table : table := snd (run_classes [] [] chain_classes).
+
+Example chain_ok_example : chain_ok chain_table [2; 1; 0].
+Proof.
+  eapply (chain_deco _ 2 [1; 0] _
+            [resolve_alias (set_name (fld "C.x") "x"); resolve_alias (set_name (fld "C.z") "z")]);
+    [reflexivity | reflexivity | reflexivity | repeat constructor | | ].
+  - repeat constructor; cbn; intuition discriminate.
+  - eapply chain_plain; [reflexivity | reflexivity | reflexivity |].
+    eapply (chain_deco _ 0 [] _
+              [resolve_alias (set_name (fld "A.x") "x"); resolve_alias (set_name (fld "A.y") "y")]);
+      [reflexivity | reflexivity | reflexivity | repeat constructor | | constructor].
+    repeat constructor; cbn; intuition discriminate.
+Qed.
+
+(** ** [introspection_agree] *)
+
+Lemma last_index_from_app n l : forall a i acc,
+  last_index_from n (l ++ [a]) i acc =
+  if String.eqb (a_name a) n then Some (i + List.length l) else last_index_from n l i acc.
+Proof.
+  induction l as [|x l IH]; cbn; intros a i acc.
+  - now rewrite Nat.add_0_r.
+  - rewrite IH. now rewrite Nat.add_succ_r.
+Qed.
+
+Lemma index_of_name_snoc l a n :
+  index_of_name (l ++ [a]) n =
+  if String.eqb (a_name a) n then Some (List.length l) else index_of_name l n.
+Proof. unfold index_of_name. now rewrite last_index_from_app. Qed.
+
+Lemma index_of_name_lt l : forall n j, index_of_name l n = Some j -> j < List.length l.
+Proof.
+  induction l as [|a l IH] using rev_ind; intros n j H; [discriminate|].
+  rewrite index_of_name_snoc in H. rewrite app_length. cbn.
+  destruct (String.eqb (a_name a) n).
+  - inversion H. lia.
+  - apply IH in H. lia.
+Qed.
+
+(** Name access on the tuple and [fields_dict] lookup return the same object: the
+    last field of that name — and that is index access at [index_of_name]. *)
+Lemma name_access_is_index_access l : forall n,
+  fields_dict_get l n = match index_of_name l n with Some j => nth_error l j | None => None end.
+Proof.
+  induction l as [|a l IH] using rev_ind; intros n; [reflexivity|].
+  unfold fields_dict_get. rewrite rev_app_distr. cbn. rewrite index_of_name_snoc.
+  destruct (String.eqb (a_name a) n).
+  - now rewrite nth_error_app2, Nat.sub_diag by lia.
+  - fold (fields_dict_get l n). rewrite IH. destruct (index_of_name l n) as [j|] eqn:E; [|reflexivity].
+    apply index_of_name_lt in E. now rewrite nth_error_app1.
+Qed.
+
+Lemma index_of_name_nodup l : NoDup (names l) ->
+  forall j a, nth_error l j = Some a -> index_of_name l (a_name a) = Some j.
+Proof.
+  induction l as [|x l IH] using rev_ind; intros Hn j a Hj; [destruct j; discriminate|].
+  rewrite names_app in Hn. apply NoDup_app_inv in Hn as (Hl & _ & Hd).
+  rewrite index_of_name_snoc.
+  destruct (Nat.lt_ge_cases j (List.length l)) as [Hlt|Hge].
+  - rewrite nth_error_app1 in Hj by assumption.
+    destruct (String.eqb (a_name x) (a_name a)) eqn:E.
+    + apply String.eqb_eq in E. exfalso. apply (Hd (a_name a)).
+      * apply nth_error_In in Hj. now apply In_names.
+      * cbn. now left.
+    + now apply IH.
+  - rewrite nth_error_app2 in Hj by assumption.
+    destruct (j - List.length l) as [|k] eqn:Ek; cbn in Hj; [|destruct k; discriminate].
+    inversion Hj; subst. rewrite String.eqb_refl. f_equal. lia.
+Qed.
+
+Lemma dedup_names_nodup_id l : forall seen,
+  NoDup l -> (forall x, In x l -> ~ In x seen) -> dedup_names l seen = l.
+Proof.
+  induction l as [|x l IH]; cbn; intros seen Hn Hs; [reflexivity|].
+  inversion Hn as [|? ? H1 H2]; subst.
+  assert (E : mem_str x seen = false) by (apply mem_str_false, Hs; now left).
+  rewrite E. f_equal. apply IH; [assumption|].
+  intros y Hy [->|Hi]; [contradiction | apply (Hs y); auto].
+Qed.
+
+Lemma fields_dict_keys_nodup l : NoDup (names l) -> fields_dict_keys l = names l.
+Proof. intros H. apply dedup_names_nodup_id; [assumption | intros x _ []]. Qed.
+
+Lemma dedup_names_spec l : forall seen,
+  NoDup (dedup_names l seen) /\
+  (forall x, In x (dedup_names l seen) <-> In x l /\ ~ In x seen).
+Proof.
+  induction l as [|y l IH]; cbn; intros seen.
+  - split; [constructor | intros x; tauto].
+  - destruct (mem_str y seen) eqn:E.
+    + destruct (IH seen) as [H1 H2]. split; [assumption|]. intros x. rewrite H2.
+      apply mem_str_In in E. split; [tauto|]. intros [[->|H] Hn]; [contradiction | tauto].
+    + apply mem_str_false in E. destruct (IH (y :: seen)) as [H1 H2]. split.
+      * constructor; [|assumption]. rewrite H2. cbn. tauto.
+      * intros x. cbn. rewrite H2. cbn. split.
+        -- intros [->|[H Hn]]; [tauto|]. split; [tauto|]. tauto.
+        -- intros [[->|H] Hn]; [tauto|]. destruct (string_dec y x) as [->|Hne]; [tauto|].
+           right. split; [assumption|]. intros [Hc|Hc]; [contradiction | contradiction].
+Qed.
+
+Lemma partition_init_perm l :
+  Permutation (init_positional l ++ init_kw_only l) (map alias_of (filter a_init l)).
+Proof.
+  unfold init_positional, init_kw_only, positional. rewrite <- map_app. apply Permutation_map.
+  induction l as [|a l IH]; cbn; [constructor|].
+  destruct (a_init a), (a_kw_only a); cbn.
+  - eapply Permutation_trans; [apply Permutation_sym, Permutation_middle|]. now constructor.
+  - now constructor.
+  - exact IH.
+  - exact IH.
+Qed.
+
+Lemma introspection_agree_l l :
+  (* fields_dict: keys are the field names (once each, in tuple order) *)
+  NoDup (fields_dict_keys l) /\
+  (forall n, In n (fields_dict_keys l) <-> In n (names l)) /\
+  (NoDup (names l) -> fields_dict_keys l = names l) /\
+  (* name access = fields_dict lookup = index access at the name's (last) index *)
+  (forall n, fields_dict_get l n =
+             match index_of_name l n with Some j => nth_error l j | None => None end) /\
+  (NoDup (names l) -> forall j a, nth_error l j = Some a -> index_of_name l (a_name a) = Some j) /\
+  (* __match_args__ and the positional parameters are the same sub-sequence of the tuple *)
+  combine (match_args l) (init_positional l) =
+    map (fun a => (a_name a, alias_of a)) (filter positional l) /\
+  List.length (match_args l) = List.length (init_positional l) /\
+  (* the parameter list is the init fields, positional ones first *)
+  Permutation (init_positional l ++ init_kw_only l) (map alias_of (filter a_init l)).
+Proof.
+  repeat split.
+  - apply (dedup_names_spec (names l) []).
+  - intros H. apply (dedup_names_spec (names l) []) in H. tauto.
+  - intros H. apply (dedup_names_spec (names l) []). tauto.
+  - apply fields_dict_keys_nodup.
+  - apply name_access_is_index_access.
+  - apply index_of_name_nodup.
+  - unfold match_args, init_positional, names. generalize (filter positional l).
+    intros l'. induction l' as [|a l' IH]; cbn; [reflexivity | now rewrite IH].
+  - unfold match_args, init_positional, names. now rewrite !map_length.
+  - apply partition_init_perm.
+Qed.
+
+(** [has] and [fields] of every class statement of a run. *)
+Lemma has_after_decoration pre t k d l :
+  k_deco k = Some d -> decorate pre t k d = Ok l ->
+  fst (step_class pre t k) = COk (observe_ok l) /\ ob_has (observe_ok l) = true.
+Proof. intros Hd Hr. unfold step_class. rewrite Hd, Hr. split; reflexivity. Qed.
+
+(** ** [transformer_reflected] *)
+Lemma transformer_reflected_l t mro by_mro kw ft own :
+  let given := evolve_kw_only kw (base_attrs_of t mro by_mro (names own)) ++ evolve_kw_only kw own in
+  transform_attrs t mro by_mro kw (Some ft) own =
+  if order_ok (ft given) then Ok (map resolve_alias (ft given)) else Err EValue.
+Proof. reflexivity. Qed.
+
+Lemma transformer_names t mro by_mro kw ft own res :
+  transform_attrs t mro by_mro kw (Some ft) own = Ok res ->
+  names res = names (ft (evolve_kw_only kw (base_attrs_of t mro by_mro (names own))
+                         ++ evolve_kw_only kw own)) /\
+  List.length res = List.length (ft (evolve_kw_only kw (base_attrs_of t mro by_mro (names own))
+                           ++ evolve_kw_only kw own)).
+Proof.
+  rewrite transformer_reflected_l. cbv zeta. destr_order; [|discriminate].
+  intros E; inversion E. now rewrite names_resolve_alias, map_length.
+Qed.
+
+(** ** [alias_default_spec] *)
+Lemma alias_default_spec_l a :
+  (a_alias a = None \/ a_alias a = Some "") ->
+  exists k al, a_alias (resolve_alias a) = Some al /\
+               a_name a = (underscores k ++ al)%string /\
+               (forall r, al <> String "_"%char r).
+Proof.
+  intros H. destruct (lstrip_spec_l (a_name a)) as (k & Hk & Hn).
+  exists k, (lstrip_underscores (a_name a)). repeat split; auto.
+  unfold resolve_alias. destruct H as [-> | ->]; reflexivity.
+Qed.
+
+Lemma alias_explicit_kept a al :
+  a_alias a = Some al -> al <> "" -> resolve_alias a = a.
+Proof.
+  intros H Hne. unfold resolve_alias. rewrite H.
+  destruct (String.eqb al "") eqn:E; [apply String.eqb_eq in E; contradiction | reflexivity].
+Qed.
+
+(** ** [define_inference] *)
+Definition annotation_driven (pre : list string) (body : list stmt) : bool :=
+  match unannotated pre (fst (namespace body)) (snd (namespace body)) with
+  | [] => true | _ :: _ => false
+  end.
+
+Lemma transform_attrs_err t mro by_mro kw ft own e :
+  transform_attrs t mro by_mro kw ft own = Err e -> e = EValue.
+Proof.
+  unfold transform_attrs. destr_order; intros H; inversion H. reflexivity.
+Qed.
+
+Lemma own_attrs_unannotated pre these auto body :
+  own_attrs pre these auto body = Err EUnannotated <->
+  these = None /\ auto = true /\ annotation_driven pre body = false.
+Proof.
+  unfold own_attrs, annotation_driven. destruct (namespace body) as [cd anns]. cbn [fst snd].
+  assert (Hmr : forall l, map_result
+            (fun e => from_counting_attr (fst e) (snd e) (dict_get anns (fst e))) l
+            <> Err EUnannotated).
+  { intros l E. apply map_result_err in E as (x & _ & E).
+    apply from_counting_attr_err in E. discriminate. }
+  destruct these as [l|]; unfold ca_list.
+  - split; [intros E; now apply Hmr in E | intros [H _]; discriminate].
+  - destruct auto.
+    + unfold ca_list_auto. destruct (unannotated pre cd anns) eqn:Eu.
+      * split; [intros E; now apply Hmr in E | intros (_ & _ & H); discriminate].
+      * split; auto.
+    + split; [intros E; now apply Hmr in E | intros (_ & H & _); discriminate].
+Qed.
+
+Lemma attrs_call_unannotated pre t k d auto :
+  attrs_call pre t k d auto = Err EUnannotated <->
+  d_these d = None /\ auto = true /\ annotation_driven pre (k_body k) = false.
+Proof.
+  rewrite <- own_attrs_unannotated. unfold attrs_call.
+  destruct (own_attrs pre (d_these d) auto (k_body k)) as [own|e] eqn:E.
+  - split; [|discriminate].
+    destruct (transform_attrs _ _ _ _ _ _) eqn:E2.
+    + destruct (nodupb _); discriminate.
+    + apply transform_attrs_err in E2. subst. discriminate.
+  - split; intros H; inversion H; reflexivity.
+Qed.
+
+(** define's guess is annotation-driven iff no unannotated [field()] is in the body. *)
+Lemma define_inference_l pre t k d :
+  d_auto d = AutoInfer ->
+  decorate pre t k d =
+  attrs_call pre t k d
+    (match d_these d with Some _ => true | None => annotation_driven pre (k_body k) end).
+Proof.
+  intros Ha. unfold decorate. rewrite Ha.
+  destruct (d_these d) as [l|] eqn:Et.
+  - destruct (attrs_call pre t k d true) as [r|e] eqn:E; [reflexivity|].
+    destruct e; try reflexivity.
+    apply attrs_call_unannotated in E as (Ht & _). congruence.
+  - destruct (annotation_driven pre (k_body k)) eqn:Ead.
+    + destruct (attrs_call pre t k d true) as [r|e] eqn:E; [reflexivity|].
+      destruct e; try reflexivity.
+      apply attrs_call_unannotated in E as (_ & _ & Hd). congruence.
+    + assert (H : attrs_call pre t k d true = Err EUnannotated)
+        by (apply attrs_call_unannotated; auto).
+      now rewrite H.
+Qed.
+
+Lemma annotation_driven_iff pre body :
+  annotation_driven pre body = true <->
+  forall n, In n (map fst (counting_attrs (fst (namespace body)))) ->
+            In n (annot_names pre (snd (namespace body))).
+Proof.
+  unfold annotation_driven, unannotated.
+  set (cas := map fst (counting_attrs (fst (namespace body)))).
+  set (an := annot_names pre (snd (namespace body))).
+  destruct (filter _ cas) eqn:E; split; intros H; try reflexivity; try discriminate.
+  - intros n Hn. destruct (mem_str n an) eqn:Em; [now apply mem_str_In|].
+    assert (Hin : In n (filter (fun n => negb (mem_str n an)) cas))
+      by (apply filter_In; split; [assumption | now rewrite Em]).
+    rewrite E in Hin. contradiction.
+  - assert (Hin : In s (filter (fun n => negb (mem_str n an)) cas)) by (rewrite E; now left).
+    apply filter_In in Hin as [H1 H2]. apply H, mem_str_In in H1. rewrite H1 in H2. discriminate.
+Qed.
+
+(** ** [mro_nearest_wins] on the finished tuple *)
+Lemma find_named_map g l n :
+  (forall a, a_name (g a) = a_name a) -> find (named n) (map g l) = option_map g (find (named n) l).
+Proof. intros H. apply find_map_commute. intros a. unfold named. now rewrite H. Qed.
+
+Lemma name_evolve_kw kw l n :
+  find (named n) (evolve_kw_only kw l) =
+  option_map (fun a => if kw then set_kw_only a true else a) (find (named n) l).
+Proof.
+  destruct kw; cbn.
+  - now apply find_named_map.
+  - now destruct (find (named n) l).
+Qed.
+
+Lemma mro_nearest_wins_result_l t mro kw own res :
+  transform_attrs t mro true kw None own = Ok res ->
+  forall n, ~ In n (names own) ->
+    find (named n) res =
+    option_map (fun a => resolve_alias (if kw then set_kw_only (inh a) true else inh a))
+               (nearest_def t mro n).
+Proof.
+  intros H n Hn. apply transform_no_ft_shape in H. subst res. cbn [base_attrs_of].
+  rewrite find_app, !(find_named_map resolve_alias) by apply name_resolve_alias.
+  rewrite !name_evolve_kw, mro_nearest_wins_l.
+  apply mem_str_false in Hn. rewrite Hn.
+  assert (E : find (named n) own = None).
+  { apply find_none_iff. intros x Hx. unfold named. apply String.eqb_neq. intros <-.
+    apply mem_str_false in Hn. apply Hn. now apply In_names. }
+  rewrite E. cbn. destruct (nearest_def t mro n); reflexivity.
+Qed.
+
+(** ** [own_definition_order] for whole class bodies, and [frontends_equal] *)
+
+Lemma dict_set_fresh {V} (d : list (string * V)) k v :
+  ~ In k (map fst d) -> dict_set d k v = d ++ [(k, v)].
+Proof.
+  induction d as [|[k' v'] d IH]; cbn; intros H; [reflexivity|].
+  destruct (String.eqb k k') eqn:E.
+  - apply String.eqb_eq in E. exfalso. apply H. now left.
+  - f_equal. apply IH. intros Hi. apply H. now right.
+Qed.
+
+Lemma dict_get_app_fresh {V} (d1 d2 : list (string * V)) k :
+  ~ In k (map fst d1) -> dict_get (d1 ++ d2) k = dict_get d2 k.
+Proof.
+  induction d1 as [|[k' v'] d1 IH]; cbn; intros H; [reflexivity|].
+  destruct (String.eqb k k') eqn:E.
+  - apply String.eqb_eq in E. exfalso. apply H. now left.
+  - apply IH. intros Hi. apply H. now right.
+Qed.
+
+Lemma map_result_ext {A B} (f g : A -> result B) l :
+  (forall x, f x = g x) -> map_result f l = map_result g l.
+Proof. intros H. induction l as [|x l IH]; cbn; [reflexivity|]. now rewrite H, IH. Qed.
+
+(** A logical specification: field names with their [attr.ib()] settings. *)
+Definition body_ib (l : list (string * cattr)) : list stmt :=
+  map (fun e => St (fst e) None (BVField (snd e))) l.
+
+Definition cd_of (l : list (string * cattr)) : list (string * bval) :=
+  map (fun e => (fst e, BVField (snd e))) l.
+
+Lemma namespace_body_ib_gen l : forall cd0 anns,
+  NoDup (map fst cd0 ++ map fst l) ->
+  fold_left exec_stmt (body_ib l) (cd0, anns) = (cd0 ++ cd_of l, anns).
+Proof.
+  induction l as [|[n c] l IH]; cbn; intros cd0 anns H; [now rewrite app_nil_r|].
+  apply NoDup_remove in H as [H1 H2].
+  rewrite dict_set_fresh by (intros Hi; apply H2; apply in_app_iff; now left).
+  rewrite IH.
+  - now rewrite <- app_assoc.
+  - rewrite map_app. cbn. rewrite <- app_assoc. cbn.
+    apply NoDup_app_inv in H1 as (Ha & Hb & Hd).
+    apply NoDup_app_intro; auto.
+    + constructor; [|assumption]. intros Hi. apply H2. apply in_app_iff. now right.
+    + intros x Hx [->|Hi]; [apply H2; apply in_app_iff; now left | eapply Hd; eauto].
+Qed.
+
+Lemma namespace_body_ib l : NoDup (map fst l) -> namespace (body_ib l) = (cd_of l, []).
+Proof. intros H. unfold namespace. now rewrite namespace_body_ib_gen. Qed.
+
+Lemma counting_attrs_cd_of l : counting_attrs (cd_of l) = l.
+Proof. unfold cd_of. induction l as [|[n c] l IH]; cbn; [reflexivity | now rewrite IH]. Qed.
+
+(** attr.ib()s in a class body, counters increasing along the source: the own
+    fields are the source order, whatever the counter values. *)
+Lemma counter_mode_source_order_l pre l :
+  NoDup (map fst l) ->
+  StronglySorted (fun x y => (ca_counter (snd x) < ca_counter (snd y))%Z) l ->
+  ca_list pre None false (fst (namespace (body_ib l))) (snd (namespace (body_ib l))) = Ok l.
+Proof.
+  intros Hn Hs. rewrite namespace_body_ib by assumption. cbn [fst snd ca_list].
+  now rewrite counting_attrs_cd_of, own_definition_order_l.
+Qed.
+
+(** The same specification through [these=]/[make_class] and through a class body. *)
+Lemma frontends_these_vs_body_l pre auto l :
+  NoDup (map fst l) ->
+  StronglySorted (fun x y => (ca_counter (snd x) < ca_counter (snd y))%Z) l ->
+  own_attrs pre None false (body_ib l) = own_attrs pre (Some l) auto [].
+Proof.
+  intros Hn Hs. unfold own_attrs. rewrite namespace_body_ib by assumption.
+  cbn [fst snd ca_list namespace fold_left]. rewrite counting_attrs_cd_of, own_definition_order_l by assumption.
+  apply map_result_ext. intros e. reflexivity.
+Qed.
+
+(** Annotated bodies: the specification carries the type; the body spells it as an
+    annotation, [these=] as [type=]. *)
+Definition typed_spec := list (string * cattr * string).
+
+Definition with_type (c : cattr) (ty : string) : cattr :=
+  CA (ca_counter c) (set_type (ca_attr c) (Some ty)).
+
+Definition body_ann (l : typed_spec) : list stmt :=
+  map (fun e => St (fst (fst e)) (Some (snd e)) (BVField (snd (fst e)))) l.
+Definition these_of (l : typed_spec) : list (string * cattr) :=
+  map (fun e => (fst (fst e), with_type (snd (fst e)) (snd e))) l.
+Definition tnames (l : typed_spec) : list string := map (fun e => fst (fst e)) l.
+
+Lemma namespace_body_ann_gen l : forall cd0 an0,
+  NoDup (map fst cd0 ++ tnames l) -> map fst an0 = map fst cd0 ->
+  fold_left exec_stmt (body_ann l) (cd0, an0) =
+  (cd0 ++ map (fun e => (fst (fst e), BVField (snd (fst e)))) l,
+   an0 ++ map (fun e => (fst (fst e), snd e)) l).
+Proof.
+  induction l as [|[[n c] ty] l IH]; cbn; intros cd0 an0 H Hk; [now rewrite !app_nil_r|].
+  apply NoDup_remove in H as [H1 H2].
+  assert (Hf : ~ In n (map fst cd0)) by (intros Hi; apply H2; apply in_app_iff; now left).
+  rewrite dict_set_fresh by assumption. rewrite dict_set_fresh by (now rewrite Hk).
+  rewrite IH.
+  - now rewrite <- !app_assoc.
+  - rewrite map_app. cbn. rewrite <- app_assoc. cbn.
+    apply NoDup_app_inv in H1 as (Ha & Hb & Hd).
+    apply NoDup_app_intro; auto.
+    + constructor; [|assumption]. intros Hi. apply H2. apply in_app_iff. now right.
+    + intros x Hx [->|Hi]; [contradiction | eapply Hd; eauto].
+  - rewrite !map_app. cbn. now rewrite Hk.
+Qed.
+
